@@ -222,6 +222,9 @@ func ToV2(v val.V) v2types.AttributeValue {
 		for _, m := range v.Set {
 			out = append(out, append(make([]byte, 0, len(m)), m...))
 		}
+		if len(out) == 0 {
+			out = nil // (an empty set as the zero value of the member: a nil slice)
+		}
 		return &v2types.AttributeValueMemberBS{Value: out}
 	case val.KInvalid:
 		if v.Str == "null-false" {
